@@ -10,9 +10,11 @@ import vlib
 
 TYPES = ["A", "B", "C", "D", "U1", "U2", "C2", "F", "U2low"]   # U2low is declared as `u2` in shared.ts: a name that differs from a file-mate in case only
 # spellings of one directory (relative to the cwd @R/w/c): all denote @R/w/c/bindings
-SPELLINGS = ["./bindings", "bindings/", "@R/w/c/bindings", "./y/../bindings", "bindings/./"]
+SPELLINGS = ["./bindings", "bindings/", "@R/w/c/bindings", "./y/../bindings", "bindings/./", "@R/w/c/z/../bindings"]
 # TS_RS_EXPORT_DIR settings with the directory they denote
-ENVS = [(None, "bindings"), ("out", "out"), ("@R/w/c/absdir", "absdir"), ("./x/../bindings/", "bindings"), ("bindings", "bindings")]
+# (an ABSOLUTE setting with a `..` segment: export() hands the default path over un-normalised, C06_agent8)
+ENVS = [(None, "bindings"), ("out", "out"), ("@R/w/c/absdir", "absdir"), ("./x/../bindings/", "bindings"), ("bindings", "bindings"),
+        ("@R/w/c/q/../absdir", "absdir"), ("@R/w/c/q/../bindings", "bindings")]
 STALE = [("@R/w/c/bindings/shared.ts", "stale shared content " * 40), ("@R/w/c/bindings/C.ts", "old C"),
          ("@R/w/c/bindings/sub/D.ts", "old D " * 50), ("@R/w/c/bindings/unrelated.ts", "keep me"),
          ("@R/w/c/out/nested/E.ts", "old E")]
